@@ -2,26 +2,46 @@ PROP = dict(
         coq="Properties/C20.v",
         workloads=[
             dict(name="genesis-roundtrip", go_test="TestC20", runner="C20",
-                 env=dict(quick=dict(VERIF_CASES=12), thorough=dict(VERIF_CASES=300))),
+                 env=dict(quick=dict(VERIF_CASES=12), thorough=dict(VERIF_CASES=1200))),
+            dict(name="genesis-roundtrip-liquidations", go_test="TestC20Liq", runner="C20",
+                 env=dict(quick=dict(VERIF_CASES=8), thorough=dict(VERIF_CASES=600))),
+            dict(name="genesis-roundtrip-lend", go_test="TestC20Lend", runner="C20",
+                 env=dict(quick=dict(VERIF_CASES=8), thorough=dict(VERIF_CASES=400))),
         ],
-        rule="case = one generated scenario (1-5 vaults on two extended pairs with a draw-down fee, optional close of the newest / a random vault, "
-             "0-4 lockers with optional close, collector lookup + auction mapping, with or without the secondary asset registered as genesis token, "
-             "liquidity pair/pool/orders/pending deposit/queued farmer, esm trigger params + kill switch, rewards whitelists, liquidation begin-blocker "
-             "sweep) -> ExportGenesis of all 14 DeFi modules -> JSON -> InitGenesis into emptied module stores on a branch of the same chain -> "
-             "per (module, prefix) dump comparison + 15-30 continuation steps on both branches; evaluations = prefix comparisons + import calls + "
-             "continuation steps; non-trivial = at least 20 populated (module, prefix) pairs compared and at least 10 continuation steps; "
+        rule="genesis-roundtrip: case = one generated scenario (1-5 vaults on two extended pairs with a draw-down fee, optional close of the newest / a random vault, "
+             "0-4 lockers with optional close, collector lookup + auction mapping, with or without the secondary asset registered as genesis token "
+             "(case 0 forces every feature on; case 1 is the regression of the repaired C20-F1 / C20-F12: net fees collected, lockers, secondary asset NOT a genesis token), "
+             "liquidity pairs/pool/orders/pending deposit/queued farmer, esm trigger params + kill switch, rewards whitelists + external rewards for stable-mint vaults + one stable-mint vault, liquidation V1 begin-blocker sweep with batch size 2/3/200) "
+             "-> ExportGenesis of all 14 DeFi modules -> JSON -> InitGenesis into emptied module stores on a branch of the same chain -> per (module, prefix) dump comparison "
+             "+ 15-30 fixed continuation steps + a random continuation on both branches (12 steps quick, 80 thorough: vault create/deposit/draw/repay/withdraw/close, "
+             "locker create/deposit/withdraw/close, liquidity orders/deposits/withdrawals/cancels/end-blocker, asset registration, price moves, blocks, liquidation V1 sweeps, "
+             "auction V1 begin-blocker; every operation addresses a user's objects through that chain's own lookup tables; a step is attributed to a known hole only while that hole "
+             "is observably active: differing id counters, differing sweep offsets and vault sets). "
+             "genesis-roundtrip-liquidations: 3-6 vaults under-collateralised by a price drop, 1..n-1 liquidated before the export through liquidationsV2 (message) + auctionsV2 "
+             "(partial market bid, optional buy-out of the first auction, optional limit bid) or through the liquidation V1 sweep + auction V1 (partial bid, optional buy-out of the "
+             "first or the newest auction); forced cases 0-3 are the witnesses of C20-F2/F3/F5 (V2), C20-F4/F7/F15 (V1, first auction bought out) and C20-F14 (V1, newest bought out); "
+             "12-14 continuation steps (next liquidation, ids, bids on new and old auctions, limit-bid deposit/withdraw/cancel, begin-blockers). "
+             "genesis-roundtrip-lend: 3-6 lend positions and 0-3 borrows in one pool, then an OLDER lend / borrow closed while younger ones stay open (a gap in the id space: forced case 0), "
+             "or the newest (forced case 1), or none; fresh-ids continuation: next lend id, borrow id, pair id, pool id on both chains, the open positions afterwards, deposits into and closing of "
+             "positions opened before the export (addressed through each chain's own lookup). The other workloads build the same gap histories for vaults, lockers, V1/V2 auctions and locked vaults. "
+             "evaluations = prefix comparisons + import calls + continuation steps; non-trivial = at least 20 populated (module, prefix) pairs compared and at least 10 continuation steps; "
              "distinct by the scenario parameters",
         modelled=["store keys and values as opaque codes (60-bit digests); ids = trailing 8 bytes of the key",
-                  "InitGenesis success path; setters that can return an error only mark the prefixes they (and everything after an aborting one) feed as at risk",
+                  "InitGenesis success path; setters that can return an error on a condition over OTHER state only mark the prefixes they (and everything after an aborting one) feed as at risk; "
+                  "setters that reject on a condition over the imported item alone (collector.SetNetFeeCollectedData: negative fee; recognised by the translator as guard kind 3/4) are taken on their success path; "
+                  "so are setters validating against other modules when the table shows the validation harmless (guard_harmless: sole writer of its prefixes, no read of its own store, foreign reads only of never-deleted round-tripping prefixes of modules initialised earlier: esm.SetKillSwitchData)",
                   "derived indexes (asset by denom/name, liquidity pair/pool/order indexes) as an abstract function of the exported records, with the consistency of the original state as a hypothesis",
                   "fresh chain = the DeFi module stores and parameter subspaces emptied on a branch of the populated chain (bank, auth, staking state identical by construction)"],
         assumptions=["the translator's reading of store accesses (go/types): Set/Delete/Get/Has/iterators on a KVStore with a key resolved to a declared 1-byte prefix; unresolved writes are Unrecognised rows and fail the theorem",
-                     "counters recomputed as a maximum are exact only when the collection is never deleted from and the counter was its maximum id (hypothesis of c20_counters_partial)"],
+                     "counters recomputed as a maximum are exact only when the collection is never deleted from and the counter was its maximum id (hypothesis of c20_counters_partial)",
+                     "a counter restored as the id of the LAST imported record is listed like a maximum: the bulk getters iterate the store in ascending id order (big-endian id keys); a counter among the known holes is in its class only in the listed restore shape (known_counter_shapes)",
+                     "an import setter that rejects an item on a condition over the item alone accepts every record the module's own writers stored (collector net fees: both writers of the prefix reject a negative result); checked by the behavioural run (prediction 'identical' for that prefix), not proved",
+                     "a record accepted by a validating setter when it was written is accepted again at import when that setter is the only writer of the prefix and the foreign state it consults only grows and is imported earlier (guard_harmless); checked by the behavioural run on the esm kill switches"],
     )
 
 MANIFEST = dict(
-    level_text="Genesis coverage of all 14 DeFi modules decided by computation over a table regenerated from the Go source on every run (store prefixes and their writers, ExportGenesis field<-getter<-prefixes read, InitGenesis setter<-fields->prefixes written, counter restore shapes, error-guarded setters) and lifted by generic lemmas: every live prefix outside 12 listed known-finding classes round-trips (init (export s) = s on it) and every id counter outside them is restored to its value; fresh-id lemma for max-restored counters. Each class has a refutation theorem. The table+model's per-prefix prediction is compared with the real ExportGenesis->JSON->InitGenesis of every module on generated states, and a continuation workload is run on both chains.",
+    level_text="Genesis coverage of all 14 DeFi modules decided by computation over a table regenerated from the Go source on every run (store prefixes and their writers, ExportGenesis field<-getter<-prefixes read, InitGenesis setter<-fields->prefixes written, counter restore shapes, error-guarded setters and whether their error depends on the item alone or on other state) and lifted by generic lemmas: every live prefix outside 11 listed known-finding classes (3-6, 8-11, 14-16) round-trips (init (export s) = s on it) and every id counter outside them is restored to its value; fresh-id lemma for max-restored counters. Each class has a refutation theorem. The table+model's per-prefix prediction is compared with the real ExportGenesis->JSON->InitGenesis of every module on generated states, and a fixed plus a random continuation workload (user messages, block hooks, price moves) is run on both chains, comparing result classes, assigned ids and balance changes step by step.",
     design_ref="DESIGN.md section 4 C20",
-    level_note="Partial: 12 known-finding classes (5 reproduced on the real code and listed, 7 read from the regenerated table only: lend/auction/auctionsV2/liquidation states are not populated by the behavioural run). Trusted: Coq kernel, the translator tools/goextract/emit_genesis.go, extraction, OCaml runner, Go harness. No axioms.",
+    level_note="Partial: 11 known-finding classes. 10 are reproduced on the real code and listed (auctionsV2 bids/limit bids not exported, liquidation V1 locked-vault id = count, liquidationsV2 locked-vault id never restored, sweep offsets, vault StableMintVaultRewards, locker id counter, vault id counter = max live id, auction V1 biddings/histories/last-auction ids, liquidation V1 histories, rewards stable-mint external rewards/epochs): all need new GenesisState fields. 1 is read from the regenerated table only (class 11: asset genesis-token-for-app, collector refund counter, esm snapshots, lend per-pool balances, liquidationsV2 reserve tx data, rewards locker/vault external-reward ids, plus the lend/rewards counters of class 10): lend liquidation auctions, external locker/vault rewards, gauges and esm deposits are not populated by the behavioural run. Decided not a defect: the esm kill-switch import guard (former class 13: sole writer, validates against never-deleted asset apps, asset initialised before esm - read from the table as guard_deps / init_order and checked by c20_esm_guard_harmless). Four former classes are fixed with patches under fixes/ (C20-F1 net-fee export, C20-F2 auctionsV2 counters, C20-F7 auction V1 lend field, C20-F12 collector lookup import): their theorems are deleted, their witnesses are regression examples and forced harness cases. Not seen by the table: auction V1 ExportGenesis reads the lend dutch auctions of app id 3 only (GetDutchLendAuctions(ctx, 3)). Trusted: Coq kernel, the translator tools/goextract/emit_genesis.go, extraction, OCaml runner, Go harness. No axioms.",
     technique="Translator-regenerated table + Coq decision procedure proved sound against an export/init model (vm_compute + forallb_forall) + behavioural round-trip correspondence run",
 )
